@@ -201,7 +201,9 @@ def main(chk):
                                                  op.lstrip("i")),
                                               dict(op=op, s=s, escape=actual, mode=mode, negated=neg,
                                                    got=sorted(got) if isinstance(got, set) else got, expected=sorted(want)))
-                            elif got != want_spec:
+                            elif got != want_spec and not (ecls == "cased_letter" and op.startswith("i")):
+                                # (for a cased escape character the spec models the escape-then-lower() composition, which a fixed
+                                #  implementation no longer follows: satisfying the Python test is what the property asks)
                                 chk.machinery("SQLite agrees with Python but not with LikeEscape.tla for %s(%r)" % (op, s))
                 if special:
                     nontrivial.add((label, s))
